@@ -162,16 +162,13 @@ IGNORED = {
     ("unary", "_is_implicitly_boolean"): "class constant of the element class (cls is keyed); assigned only in subclass bodies",
     ("function", "_has_args"): "computed in the constructor from clause_expr (keyed)",
     ("function", "sequence"): "next_value only (keyed there)",
-    ("select", "_auto_correlate"): "keyed through _correlate / _correlate_except; value is a construction-time boolean folded into them",
     ("textual_select", "positional"): "TextualSelect positional column matching affects result map only",
     ("table_valued_alias", "_is_lateral"): "class constant overridden only by the Lateral subclass (cls is keyed)",
     ("values", "_is_lateral"): "class constant overridden only by the Lateral subclass (cls is keyed)",
     ("alias", "_is_lateral"): "class constant overridden only by the Lateral subclass (cls is keyed)",
     ("cte", "_is_clone_of"): "clone bookkeeping used to find the CTE already rendered",
     ("table", "fullname"): "Table is keyed by identity; TableClause.fullname is computed from name and schema (keyed)",
-    ("table", "name"): "Table is keyed by identity",
     ("insert", "_where_criteria"): "crud helper shared with UPDATE/DELETE; attribute not present on Insert",
-    ("insert", "include_insert_from_select_defaults"): "keyed as a constructor flag of from_select: see finding list if it ever differs",
     ("update", "_multi_values"): "crud helper shared with INSERT; attribute not present on Update",
     ("update", "_select_names"): "crud helper shared with INSERT; attribute not present on Update",
     ("update", "_sort_by_parameter_order"): "crud helper shared with INSERT; attribute not present on Update",
@@ -184,24 +181,15 @@ IGNORED = {
     ("delete", "_select_names"): "crud helper shared with INSERT; attribute not present on Delete",
     ("delete", "_sort_by_parameter_order"): "crud helper shared with INSERT; attribute not present on Delete",
     ("delete", "_values"): "crud helper shared with INSERT/UPDATE; attribute not present on Delete",
-    ("delete", "_multi_values"): "crud helper shared with INSERT; attribute not present on Delete",
-    ("delete", "_ordered_values"): "crud helper shared with UPDATE; attribute not present on Delete",
     ("delete", "include_insert_from_select_defaults"): "crud helper shared with INSERT; attribute not present on Delete",
     ("delete", "select"): "crud helper shared with INSERT; attribute not present on Delete",
     ("insert", "_supplemental_returning"): "set by the ORM bulk persistence on a private copy at execution time; None on user statements",
     ("update", "_supplemental_returning"): "set by the ORM bulk persistence on a private copy at execution time; None on user statements",
     ("delete", "_supplemental_returning"): "set by the ORM bulk persistence on a private copy at execution time; None on user statements",
-    ("insert", "_ordered_values"): "crud helper shared with UPDATE; attribute not present on Insert",
 }
 METHODS_OK = {
-    "_clone", "_de_clone", "_deannotate", "compare", "self_group", "_compiler_dispatch", "_generate_cache_key",
-    "_get_reference_cte", "_get_method", "_simple_int_clause", "subquery", "_generate_columns_plus_names",
-    "_iterate_from_elements", "_compile_state_factory", "_with_binary_element_type", "get_children", "_copy_internals",
-    "_generate", "_annotate", "_get_embedded_bindparams", "_refresh_for_new_column", "_is_subquery", "alias",
-    "_generate_fromclause_column_proxies", "_from_objects", "_static_cache_key", "_limit_offset_clause",
-    "_plugin_not_implemented", "get_plugin_class", "_column_naming_convention", "_exported_columns_iterator",
-    "_get_display_froms", "_all_equivs", "_dedupe_anon_label_idx", "_dedupe_anon_tq_label_idx", "_dedupe_label_anon_label",
-    "_offset_or_limit_clause_asint", "_offset_or_limit_clause",
+    "_clone", "_de_clone", "_deannotate", "compare", "_get_reference_cte", "_get_method", "_simple_int_clause",
+    "subquery", "_generate_columns_plus_names", "_iterate_from_elements",
 }
 # reads of a specific class that reaches a shared visit method but leaves it early
 IGNORED_CLASS = {
@@ -214,6 +202,14 @@ LITERAL = {("bindparam", "value"), ("bindparam", "callable"), ("bindparam", "eff
 GAPS = {
     ("bindparam", "expanding"): "C02-bindparam-expanding-not-in-key",
     ("label", "type"): "C02-label-type-not-in-key",
+    ("select", "_auto_correlate"): "C02-select-correlate-none-not-in-key",
+    ("insert", "include_insert_from_select_defaults"): "C02-insert-from-select-include-defaults-not-in-key",
+}
+# a gap attribute is encoded relative to its default (None = default), so that "gap-free" means "default everywhere"
+GAP_DEFAULT = {
+    ("bindparam", "expanding"): False,
+    ("select", "_auto_correlate"): True,
+    ("insert", "include_insert_from_select_defaults"): True,
 }
 
 STMT_NAMES = {"statement", "stmt", "select_statement", "insert_stmt", "update_stmt", "delete_stmt"}
@@ -378,8 +374,20 @@ def _loads(fnode, is_target, out, dyn, where):
                 dyn.add(where)
 
 
+def _aliases(fnode, pname):
+    """names bound by a plain `x = <element>` assignment (one step; `clause = on_conflict`)"""
+    names = {pname}
+    for node in ast.walk(fnode):
+        if isinstance(node, ast.Assign) and isinstance(node.value, ast.Name) and node.value.id in names:
+            for t in node.targets:
+                if isinstance(t, ast.Name):
+                    names.add(t.id)
+    return names
+
+
 def _follow(fnode, pname, cls, depth, seen, out, dyn, where):
-    _loads(fnode, lambda v: isinstance(v, ast.Name) and v.id == pname, out, dyn, where)
+    names = _aliases(fnode, pname)
+    _loads(fnode, lambda v: isinstance(v, ast.Name) and v.id in names, out, dyn, where)
     if depth <= 0:
         return
     for node in ast.walk(fnode):
@@ -574,6 +582,23 @@ def facts(_=None):
     return _FACTS
 
 
+def impl_facts():
+    """summary of the regenerated tables for the evidence file"""
+    f = facts()
+    cl = f["classes"]
+    return {
+        "HasCacheKey_classes": len(cl),
+        "kinds": {k: sum(1 for e in cl if e["kind"] == k) for k in ("normal", "identity", "nocache", "opaque")},
+        "keyed_attributes": sum(len([x for x in e.get("fields", []) if x[1] != H_SKIP]) for e in cl),
+        "classes_with_compiler_reads": sum(1 for e in cl if e["V"]),
+        "compiler_read_attributes": sum(len(e["V"]) for e in cl),
+        "visit_methods_scanned": len(f["reads"]),
+        "known_gaps": sorted(set("%s.%s" % k for k in GAPS)),
+        "cases": dict(_COUNT),
+        "curated": {"DERIVED": len(DERIVED), "IGNORED": len(IGNORED), "IGNORED_CLASS": len(IGNORED_CLASS), "METHODS_OK": len(METHODS_OK), "LITERAL": len(LITERAL)},
+    }
+
+
 def pin_check(repo):
     from translate import fingerprint
 
@@ -594,8 +619,7 @@ def _coq_tables(f):
             ents.append("  (%d, mkC KNormal %s [%s])  (* %s *)" % (e["id"], "true" if e["bind"] else "false", fs, e["qual"]))
         elif e["kind"] == "identity":
             ents.append("  (%d, mkC KIdentity false [])  (* %s *)" % (e["id"], e["qual"]))
-        elif e["kind"] == "nocache":
-            ents.append("  (%d, mkC KNoCache false [])  (* %s *)" % (e["id"], e["qual"]))
+        # classes without a cache key ("nocache") need no entry: a class that is not listed is KNoCache
     lines.append(";\n".join(ents))
     lines.append("]%N.\n")
     vents = ["  (0, [%s])" % "; ".join(str(x) for x in list(range(TUPLE_ATOM0, TUPLE_ATOM0 + w)) + list(range(TUPLE_KID0, TUPLE_KID0 + w)))]
@@ -661,12 +685,12 @@ STRS = ["s1", "s%", "a"]
 # coordinate -> number of alternatives (select family)
 SEL = {
     "cols": 12, "lab": 3, "ltype": 4, "where": 19, "v": 4, "v2": 3, "vs": 3, "lit": 5, "bexp": 2, "bcall": 2,
-    "distinct": 2, "order": 5, "limit": 3, "offset": 2, "group": 2, "frm": 9, "setop": 5, "prefix": 3, "fu": 2,
-    "hint": 2, "fname": 3, "casttype": 3, "over": 3,
+    "distinct": 2, "order": 6, "limit": 3, "offset": 2, "group": 2, "frm": 10, "setop": 5, "prefix": 3, "fu": 2,
+    "hint": 2, "fname": 4, "casttype": 3, "over": 5, "corr": 2, "pm": 3, "neg": 3, "col2": 2, "aname": 2,
 }
-DML = {"kind": 3, "vals": 5, "v": 4, "v2": 3, "vs": 3, "ret": 3, "onc": 4, "dwhere": 3, "inline": 2, "prefix": 2, "pk": 4}
+DML = {"kind": 3, "vals": 6, "v": 4, "v2": 3, "vs": 3, "ret": 3, "onc": 4, "dwhere": 3, "inline": 2, "prefix": 2, "pk": 4, "incdef": 2}
 ORM = {"ent": 4, "where": 4, "v": 4, "join": 3, "opt": 7, "order": 2, "limit": 2, "alias": 2}
-LITERAL_COORDS = {"v", "v2", "vs", "pk"}
+LITERAL_COORDS = {"v", "v2", "vs", "pk", "pm"}  # coordinates that only change values (pm: where the value of "p" comes from)
 FAMS = {"select": SEL, "dml": DML, "orm": ORM}
 
 _S = {}
@@ -681,7 +705,7 @@ def _schema():
     m = MetaData()
     _S["m"] = m
     _S["t"] = Table(
-        "t", m, Column("id", Integer, primary_key=True), Column("x", Integer), Column("y", Integer), Column("s", String),
+        "t", m, Column("id", Integer, primary_key=True), Column("x", Integer), Column("y", Integer, default=11), Column("s", String),
         Column("b", Boolean), Column("d", DateTime),
     )
     _S["u"] = Table("u", m, Column("id", Integer, primary_key=True), Column("tid", Integer, ForeignKey("t.id")), Column("v", Integer), Column("name", String))
@@ -724,23 +748,29 @@ def _lit(p, v, ty=None):
 def build_select(p):
     import datetime
 
-    from sqlalchemy import Boolean, Integer, Numeric, String, and_, bindparam, case, cast, except_, exists, func, intersect, label, literal_column, not_, or_, select, tuple_, type_coerce, union, union_all
+    from sqlalchemy import Boolean, Integer, Numeric, String, and_, bindparam, case, cast, column, except_, exists, func, intersect, label, literal_column, not_, or_, select, tuple_, type_coerce, union, union_all, values
 
     S = _schema()
     t, u = S["t"], S["u"]
     v, v2, vs = INTS[p.get("v", 0)], INTS2[p.get("v2", 0)], STRS[p.get("vs", 0)]
     frm = p.get("frm", 0)
     src = t
+    an = p.get("aname", 0)
     if frm == 4:
-        src = t.alias("ta")
+        src = t.alias(["ta", "tb"][an])
     elif frm == 5:
         src = t.alias()
     elif frm == 6:
-        src = select(t).where(t.c.y.is_not(None) | (t.c.id > _lit(p, 0))).subquery("sq")
+        src = select(t).where(t.c.y.is_not(None) | (t.c.id > _lit(p, 0))).subquery(["sq", "sr"][an])
     elif frm == 7:
-        src = select(t).where(t.c.id >= _lit(p, 0)).cte("ct")
+        src = select(t).where(t.c.id >= _lit(p, 0)).cte(["ct", "cu"][an])
+    elif frm == 9:  # VALUES with data: not cacheable
+        src = values(column("id", Integer), column("x", Integer), column("y", Integer), column("s", String), column("b", Boolean), column("d", String), name="vv").data(
+            [(1, v, v2, vs, True, "2020-01-01"), (2, v2, v, "a", False, "2020-01-02")])
     c = src.c
-    fn = [func.coalesce, func.ifnull, func.max][p.get("fname", 0)]
+    params = None
+    fn = [func.coalesce, func.ifnull, func.max, func.nullif][p.get("fname", 0)]
+    cx = [c.x, c.y][p.get("col2", 0)]
     ctype = [String, Integer, Numeric][p.get("casttype", 0)]
     cols_k = p.get("cols", 0)
     if p.get("group", 0):
@@ -757,7 +787,8 @@ def build_select(p):
         cols = [c.id, c.s.concat(_lit(p, vs))]
     elif cols_k == 6:
         ov = p.get("over", 0)
-        cols = [c.id, func.count().over(partition_by=c.x if ov != 1 else None, order_by=c.id if ov != 2 else c.id.desc())]
+        fr = {3: {"rows": (None, 0)}, 4: {"range_": (None, 0)}}.get(ov, {})
+        cols = [c.id, func.count().over(partition_by=c.x if ov != 1 else None, order_by=c.id if ov != 2 else c.id.desc(), **fr)]
     elif cols_k == 7:
         cols = [c.id, type_coerce(c.x, ctype)]
     elif cols_k == 8:
@@ -770,7 +801,7 @@ def build_select(p):
     elif cols_k == 11:
         cols = [c.id, func.max(c.x).filter(c.x > _lit(p, v)).over(partition_by=c.y)]
     else:
-        cols = [c.id, c.x]
+        cols = [c.id, [cx, -cx, func.abs(cx)][p.get("neg", 0)]]
     s = select(*cols)
     w = p.get("where", 0)
     crit = None
@@ -805,6 +836,9 @@ def build_select(p):
             crit = c.x == bindparam("p", type_=Integer, callable_=lambda: v)
         elif p.get("bexp", 0):
             crit = c.x == bindparam("p", [v], type_=Integer, expanding=True)
+        elif p.get("pm", 0) == 1:  # the value arrives with the execution
+            crit = c.x == bindparam("p", type_=Integer)
+            params = {"p": v}
         else:
             crit = c.x == bindparam("p", v, type_=Integer)
     elif w == 15:
@@ -815,8 +849,15 @@ def build_select(p):
         crit = c.x.not_in([v, v2])
     elif w == 18:
         crit = c.x.in_([])
+    elif w == 19:
+        inner = select(func.count(u.c.id)).where(u.c.tid == c.id).where(u.c.v >= _lit(p, 0))
+        if p.get("corr", 0):
+            inner = inner.correlate(None)  # no auto-correlation: the enclosing table is repeated in the inner FROM
+        crit = c.y >= inner.scalar_subquery()
     if crit is not None:
         s = s.where(crit)
+    if w == 14 and p.get("pm", 0) == 2 and not p.get("bcall", 0) and not p.get("bexp", 0):
+        s = s.params(p=v2)  # statement-level parameter set
     if frm == 1:
         s = s.select_from(t.join(u, u.c.tid == t.c.id))
     elif frm == 2:
@@ -831,12 +872,14 @@ def build_select(p):
         s = s.distinct()
     o = p.get("order", 0)
     if o == 1:
-        s = s.order_by(c.x, c.id)
+        s = s.order_by(c.x.asc(), c.id)
     elif o == 2:
         s = s.order_by(c.x.desc(), c.id)
     elif o == 3:
         s = s.order_by(c.x.desc().nulls_last(), c.id)
-    elif o == 4 and not p.get("group", 0):
+    elif o == 4:
+        s = s.order_by(c.x.desc().nulls_first(), c.id)
+    elif o == 5 and not p.get("group", 0):
         s = s.order_by("id")
     if p.get("limit", 0):
         s = s.limit([None, 2, 3][p["limit"]])
@@ -852,7 +895,7 @@ def build_select(p):
     if so:
         other = select(t.c.id, t.c.y).where(t.c.y > _lit(p, v2))
         s = [None, union, union_all, intersect, except_][so](s, other)
-    return s
+    return s, params
 
 
 def build_dml(p):
@@ -876,8 +919,10 @@ def build_dml(p):
             params = {"id": pk, "x": v}
         elif vk == 3:
             params = {"id": pk, "x": v, "s": vs}
+        elif vk == 5:  # multiple VALUES: not cacheable
+            s = s.values([{"id": pk, "x": v}, {"id": pk + 50, "x": v2}])
         else:
-            s = s.from_select(["id", "x"], select(u.c.id + (pk + 100), u.c.v).where(u.c.v > v))
+            s = s.from_select(["id", "x"], select(u.c.id + (pk + 100), u.c.v).where(u.c.v > v), include_defaults=not p.get("incdef", 0))
         oc = p.get("onc", 0)
         if oc == 1:
             s = s.on_conflict_do_nothing()
@@ -966,7 +1011,7 @@ def build_orm(p):
 def build(fam, p):
     """-> (statement, execution parameters or None)"""
     if fam == "select":
-        return build_select(p), None
+        return build_select(p)
     if fam == "dml":
         return build_dml(p)
     if fam == "orm":
@@ -1023,6 +1068,7 @@ class Encoder:
         self.fresh = 1000000
         self.size = 0
         self.memo = {}
+        self.open = set()
 
     def encode(self, stmt):
         from sqlalchemy.sql.visitors import anon_map
@@ -1176,9 +1222,13 @@ class Encoder:
             if self.size > 700:
                 raise Unsupported("statement too large for the model runner")
             return self.memo[id(obj)][0]
+        if id(obj) in self.open:
+            raise Unsupported("cyclic object graph (%s)" % type(obj).__name__)
+        self.open.add(id(obj))
         before = self.size
         self.size += 1
         n = self._node(obj)
+        self.open.discard(id(obj))
         self.memo[id(obj)] = (n, self.size - before)
         if self.size > 700:
             raise Unsupported("statement too large for the model runner")
@@ -1219,6 +1269,8 @@ class Encoder:
             gap = (e["visit"], a)
             if gap == ("label", "type") and val is not None and val._static_cache_key == obj._element.type._static_cache_key:
                 val = None  # the default: the element's own type
+            elif gap in GAP_DEFAULT:
+                val = None if val == GAP_DEFAULT[gap] else ("non-default", val)
             self.auto(a, val, atoms, kids)
         if e["bind"]:
             atoms.append([1] + self.it.atom(_canon_val(obj.value)))
@@ -1243,16 +1295,19 @@ class Encoder:
 # implementation side
 # =====================================================================================================
 RELEVANT = {  # coordinate -> other coordinates that make it matter
-    "lab": {"cols": 9}, "ltype": {"cols": 10}, "bexp": {"where": 14, "bcall": 0}, "bcall": {"where": 14, "bexp": 0},
+    "lab": {"cols": 9}, "ltype": {"cols": 10}, "bexp": {"where": 14, "bcall": 0, "pm": 0}, "bcall": {"where": 14, "bexp": 0, "pm": 0},
     "over": {"cols": 6}, "fname": {"cols": 2}, "casttype": {"cols": 3}, "lit": {"where": 1}, "v": {"where": 1},
     "v2": {"where": 4}, "vs": {"where": 5}, "offset": {"limit": 1},
     "onc": {"kind": 0, "vals": 0}, "inline": {"kind": 0}, "dwhere": {"kind": 1}, "vals": {}, "pk": {"kind": 0, "vals": 0},
-    "opt": {"ent": 0}, "join": {"ent": 0},
+    "opt": {"ent": 0}, "join": {"ent": 0}, "corr": {"where": 19}, "pm": {"where": 14, "bexp": 0, "bcall": 0},
+    "neg": {"cols": 0}, "incdef": {"kind": 0, "vals": 4}, "col2": {"cols": 0, "group": 0}, "aname": {"frm": 4},
 }
 GAPCOORD = {
     "bexp": "C02-bindparam-expanding-not-in-key",
     "ltype": "C02-label-type-not-in-key",
     "bcall": "C02-construct-params-callable-from-cached-bind",
+    "corr": "C02-select-correlate-none-not-in-key",
+    "incdef": "C02-insert-from-select-include-defaults-not-in-key",
 }
 
 
@@ -1262,7 +1317,7 @@ def canon_recipe(fam, p):
     if fam == "select":
         if q["group"]:
             q["cols"] = 0
-            if q["order"] == 4:
+            if q["order"] == 5:
                 q["order"] = 0
         c, w = q["cols"], q["where"]
         if c != 9:
@@ -1276,15 +1331,25 @@ def canon_recipe(fam, p):
         if c not in (3, 7):
             q["casttype"] = 0
         if w != 14:
-            q["bexp"] = q["bcall"] = 0
+            q["bexp"] = q["bcall"] = q["pm"] = 0
         if q["bcall"]:
             q["bexp"] = 0
+        if q["bcall"] or q["bexp"]:
+            q["pm"] = 0
+        if w != 19:
+            q["corr"] = 0
+        if c != 0:
+            q["neg"] = q["col2"] = 0
+        if q["frm"] not in (4, 6, 7):
+            q["aname"] = 0
         if not q["limit"] and not q["offset"]:
             pass
     elif fam == "dml":
         k = q["kind"]
         if k != 0:
-            q["onc"] = q["inline"] = q["pk"] = 0
+            q["onc"] = q["inline"] = q["pk"] = q["incdef"] = 0
+        if k == 0 and q["vals"] != 4:
+            q["incdef"] = 0
         if k == 0:
             q["dwhere"] = 0
             q["prefix"] = 0
@@ -1440,7 +1505,10 @@ def _sqlite_dialect():
 def _compile_facts(stmt, params):
     d = _sqlite_dialect()
     kw = {"column_keys": sorted(params)} if params else {}
-    c = stmt.compile(dialect=d, **kw)
+    try:
+        c = stmt.compile(dialect=d, **kw)
+    except Exception as ex:  # a statement that does not compile must not compile under an equal key either
+        return None, "does not compile: %s" % type(ex).__name__, [], []
     names = list(c.positiontup or [])
     types = [repr(c.binds[n].type._static_cache_key) for n in names]
     return c, str(c), names, types
@@ -1481,13 +1549,13 @@ def impl_pair(c):
         if ty1 != ty2:
             obs["viol"] = "equal cache keys but different parameter types: %r vs %r (%s)%s" % (ty1, ty2, t1, tag)
             return obs
-        if (p1 or {}).keys() == (p2 or {}).keys():
+        if (p1 or {}).keys() == (p2 or {}).keys() and c1 is not None:
             d = _sqlite_dialect()
             for (sa, pa, sb, pb) in ((s1, p1, s2, p2), (s2, p2, s1, p1)):
                 ka, kb = sa._generate_cache_key(), sb._generate_cache_key()
                 kw = {"column_keys": sorted(pa)} if pa else {}
                 ca = sa.compile(dialect=d, cache_key=ka, **kw)
-                got = ca.construct_params(pb, extracted_parameters=kb.bindparams)
+                got = ca.construct_params(pb, extracted_parameters=kb.bindparams, _collected_params=kb.params)
                 cb = sb.compile(dialect=d, **kw)
                 want = cb.construct_params(pb)
                 gv = [repr(got.get(n)) for n in (ca.positiontup or [])]
@@ -1537,6 +1605,7 @@ def impl_hist(c):
     obs = {"viol": None, "model_in": [9], "model_out": [-999], "modelled": 0, "hits": 0}
     stmts, steps, outs = [], [], []
     modelled = c.get("try_model", True)
+    keys = []  # per step: (statement cache key, execution parameter names)
     populated = {}  # id(compiled) -> step index that compiled it
     populated_holes = {}  # id(compiled) -> hole labels (None: compiler-made bind), in the numbering of the compiled statement
     keep = []
@@ -1557,8 +1626,20 @@ def impl_hist(c):
         if comp is not None and src is None:
             populated[id(comp)] = i
             keep.append(comp)
+        try:
+            ck = stmt._generate_cache_key()
+            keys.append((ck.key if ck is not None else None, tuple(sorted(params or ()))))
+        except Exception:
+            keys.append((None, ()))
         if obs["viol"] is None and (sa != sb or ka != kb):
             tag = ""
+            if src is None and keys[i][0] is not None:
+                # the cursor was not reached (the cached compilation failed earlier): the compilation in use
+                # came from an earlier step with an equal key; name the most recent structurally different one
+                for j in range(i - 1, -1, -1):
+                    if keys[j] == keys[i] and c["steps"][j]["fam"] == fam and set(recipe_diff(fam, p, c["steps"][j]["p"])) - LITERAL_COORDS:
+                        src = j
+                        break
             if src is not None:
                 sf, sp = c["steps"][src]["fam"], c["steps"][src]["p"]
                 tag = " [diff: %s]" % ",".join(recipe_diff(fam, p, sp)) if sf == fam else " [diff: family]"
@@ -1573,6 +1654,8 @@ def impl_hist(c):
             modelled = False
             continue
         try:
+            if params or (fam == "select" and canon_recipe(fam, p)["pm"]):
+                raise Unsupported("execution-time / statement-level parameter sets are not in the model")
             enc = Encoder(it)
             n = enc.encode(stmt)
             if ctx is None:
@@ -1602,10 +1685,19 @@ def impl_hist(c):
     return obs
 
 
+_COUNT = {}
+
+
 def impl(c):
+    o = impl_hist(c) if c.get("mode") == "hist" else impl_pair(c)
+    k = ("history" if c.get("mode") == "hist" else "pair") + ("_modelled" if o.get("modelled") else "_oracle_only")
+    _COUNT[k] = _COUNT.get(k, 0) + 1
+    if o.get("unsupported"):
+        r = "not_modelled: " + re.sub(r"[0-9_]+", "", o["unsupported"])[:60]
+        _COUNT[r] = _COUNT.get(r, 0) + 1
     if c.get("mode") == "hist":
-        return impl_hist(c)
-    return impl_pair(c)
+        _COUNT["history_hits_on_different_literals"] = _COUNT.get("history_hits_on_different_literals", 0) + o.get("hits", 0)
+    return o
 
 
 def model_pair(c, obs):
@@ -1645,12 +1737,16 @@ def _rand_recipe(rng, fam, plain=0.55):
         if p["group"]:
             p["setop"] = 0
         if p["setop"]:
-            p["order"] = 0 if p["order"] != 4 else 4
+            p["order"] = 0 if p["order"] != 5 else 5
             p["limit"] = p["offset"] = 0
             p["fu"] = 0
         if p["frm"] in (4, 5, 6, 7) and p["where"] in (9, 10, 12):
             pass
     return p
+
+
+def _rtree(fam, p):
+    return [sorted(FAMS).index(fam)] + [p.get(k, 0) for k in sorted(FAMS[fam])]
 
 
 def _pairs_for(rng, fam, k, kmodel):
@@ -1677,7 +1773,7 @@ def _pairs_for(rng, fam, k, kmodel):
                     base2 = dict(base, limit=0, offset=0, fu=0)
                 else:
                     base2 = base
-                out.append({"in": [], "mode": "pair", "fam": fam, "a": base2, "b": b, "kind": "pair-%s:%s" % (fam, coord), "model": fam != "orm" and j < kmodel})
+                out.append({"in": [_rtree(fam, base2), _rtree(fam, b)], "mode": "pair", "fam": fam, "a": base2, "b": b, "kind": "pair-%s:%s" % (fam, coord), "model": fam != "orm" and j < kmodel})
     return out
 
 
@@ -1690,8 +1786,8 @@ def _history(rng, fam_mix):
     steps = []
     for _ in range(rng.randint(6, 14)):
         p = dict(rng.choice(bases))
-        for k in LITERAL_COORDS:
-            if k in p:
+        for k in sorted(LITERAL_COORDS):
+            if k in p and k != "pm":
                 p[k] = rng.randrange(FAMS[fam][k])
         if rng.random() < 0.25:
             k = rng.choice(sorted(FAMS[fam]))
@@ -1700,23 +1796,26 @@ def _history(rng, fam_mix):
                 p["limit"] = p["offset"] = p["fu"] = 0
                 p["group"] = 0
         steps.append({"fam": fam, "p": p, "on": rng.random() < 0.85})
-    return {"in": [], "mode": "hist", "cap": cap, "steps": steps, "kind": "history-%s-cap%d" % (fam, cap), "model": True, "try_model": fam == "select"}
+    return {"in": [cap] + [_rtree(st["fam"], st["p"]) + [int(st["on"])] for st in steps], "mode": "hist", "cap": cap, "steps": steps, "kind": "history-%s-cap%d" % (fam, cap), "model": True, "try_model": fam == "select"}
 
 
 def gen_cases(rng, tier):
+    """quick: every coordinate x every alternative from 4 (select) / 3 (dml) / 2 (orm) random bases, the first base
+    of each also through the Coq model; thorough: 20 / 12 / 8 bases, 6 / 4 modelled"""
     thorough = tier == "thorough"
     cases = []
-    cases += _pairs_for(rng, "select", 24 if thorough else 4, 24 if thorough else 2)
-    cases += _pairs_for(rng, "dml", 16 if thorough else 3, 16 if thorough else 2)
-    cases += _pairs_for(rng, "orm", 10 if thorough else 2, 0)
-    nr = 600 if thorough else 40
+    cases += _pairs_for(rng, "select", 20 if thorough else 4, 6 if thorough else 1)
+    cases += _pairs_for(rng, "dml", 12 if thorough else 3, 4 if thorough else 1)
+    cases += _pairs_for(rng, "orm", 8 if thorough else 2, 0)
+    nr = 400 if thorough else 40
     for j in range(nr):
         fam = rng.choice(["select", "select", "dml"])
-        cases.append({"in": [], "mode": "pair", "fam": fam, "a": _rand_recipe(rng, fam, 0.4), "b": _rand_recipe(rng, fam, 0.4), "kind": "pair-%s:random" % fam, "model": thorough or j % 2 == 0})
-    nh = 1500 if thorough else 80
+        a, b = _rand_recipe(rng, fam, 0.4), _rand_recipe(rng, fam, 0.4)
+        cases.append({"in": [_rtree(fam, a), _rtree(fam, b)], "mode": "pair", "fam": fam, "a": a, "b": b, "kind": "pair-%s:random" % fam, "model": j % (4 if thorough else 2) == 0})
+    nh = 1000 if thorough else 70
     for j in range(nh):
         h = _history(rng, ["select", "select", "select", "dml", "orm"])
-        if not thorough and j % 2:
+        if j % (4 if thorough else 2):
             h["try_model"] = False
         cases.append(h)
     return cases
